@@ -71,6 +71,9 @@ type httpsService struct {
 
 func (s *httpsService) SetChannel(c pushers.Channel) {
 	s.c = c
+
+	// the embedded http service reports the requests of completed sessions
+	s.httpService.SetChannel(c)
 }
 
 func (s *httpsService) getCertificate(hello *tls.ClientHelloInfo) (*tls.Certificate, error) {
